@@ -353,6 +353,9 @@ func (c *oCache) DoLockedIfNotExists(id string, action func() error) error {
 func (c *oCache) Add(id string, value Object) (err error) {
 	c.mu.Lock()
 	defer c.mu.Unlock()
+	if c.closed {
+		return ErrClosed
+	}
 	if _, ok := c.data[id]; ok {
 		return ErrExists
 	}
